@@ -19,10 +19,16 @@ def plusList (s : String) : List String := if s = "" then [] else s.splitOn "+"
 def hostOfId (id : String) : String :=
   if id = "F" then "hB:1" else if id = "G" then "hC:1" else "h" ++ id ++ ":1"
 
+/-- `<id>@<n>`: the same member id seen at another address. -/
+def idAndHost (idTok : String) : String × String :=
+  match idTok.splitOn "@" with
+  | [id, n] => (id, "h" ++ id ++ ":" ++ n)
+  | _ => (idTok, hostOfId idTok)
+
 def parseMemberTok (tok : String) : Member :=
   match tok.splitOn ":" with
-  | [id, ks] => { id := id, host := hostOfId id, kinds := plusList ks }
-  | [id] => { id := id, host := hostOfId id, kinds := [] }
+  | [idTok, ks] => { id := (idAndHost idTok).1, host := (idAndHost idTok).2, kinds := plusList ks }
+  | [idTok] => { id := (idAndHost idTok).1, host := (idAndHost idTok).2, kinds := [] }
   | _ => { id := tok, host := "?", kinds := [] }
 
 def membersCase (inp impl : String) : CaseOut :=
@@ -33,8 +39,13 @@ def membersCase (inp impl : String) : CaseOut :=
   | some ss =>
     let snaps : List (List Member) := (ss.splitOn "/").map fun s => if s = "" then [] else (s.splitOn ".").map parseMemberTok
     let kuniv := ["k1", "k2", "k3"]
+    -- `!act<kind>` in place of a snapshot: an activation attempt (the remote members cannot be reached): the view stays
+    let isAct (snap : List Member) : Bool := match snap with | [m] => m.id.startsWith "!act" | _ => false
     let stepSnap (acc : AgentSt × List String × List String) (snap : List Member) : AgentSt × List String × List String :=
       let (st, out, tags) := acc
+      if isAct snap then
+        (st, out ++ ["view=" ++ String.intercalate "+" (sortStrs (ids st.members)) ++
+          " kinds=" ++ String.intercalate "+" (kuniv.filter (· ∈ st.kinds)) ++ " ev="], tags ++ ["activation-attempt"]) else
       let (st', o) := handleMembers st snap
       let evs := sortStrs ((joinIds o).map ("join:" ++ ·) ++ (leaveIds o).map ("leave:" ++ ·))
       let line := "view=" ++ String.intercalate "+" (sortStrs (ids st'.members)) ++
@@ -49,6 +60,9 @@ def membersCase (inp impl : String) : CaseOut :=
     -- each once; kinds = kinds advertised by the stored members (first advertisement of a member that stays)
     let specStep (acc : List Member × List String) (snap : List Member) : List Member × List String :=
       let (old, out) := acc
+      if isAct snap then
+        (old, out ++ ["view=" ++ String.intercalate "+" (sortStrs (ids old)) ++ " kinds=" ++
+          String.intercalate "+" (kuniv.filter fun k => old.any fun m => k ∈ m.kinds) ++ " ev="]) else
       let snapIds := (ids snap).eraseDups
       let joined := snapIds.filter (fun i => !(ids old).contains i)
       let left := (ids old).filter (fun i => !snapIds.contains i)
@@ -85,6 +99,15 @@ def providerCase (inp impl : String) : CaseOut :=
         if kind = "hs" then let r := provHandshake st (mk arg); (r.1, r.2, if hasId st.members arg then "handshake.known" else "handshake.new")
         else if kind = "ms" then let r := provMembers st ((plusList arg).map mk); (r.1, r.2, "members")
         -- ur: the same report arriving the way the remote publishes it (event stream -> the provider's event child)
+        -- hu: a handshake and then the unreachable report for the same peer, the handshake still queued when the report is
+        -- published: handled in that order (join, then leave)
+        else if kind = "hu" then
+          let r1 := provHandshake st (mk arg)
+          let r2 := provLeave r1.1 ("h" ++ arg ++ ":1")
+          -- (the harness lists what the agent was told before what was sent to peers)
+          let outs := r1.2 ++ r2.2
+          let isAgent (o : ProvOut) : Bool := match o with | .agent _ => true | _ => false
+          (r2.1, outs.filter isAgent ++ outs.filter (fun o => !isAgent o), "handshake-then-unreachable-while-busy")
         else if kind = "ur" then let r := provLeave st ("h" ++ arg ++ ":1"); (r.1, r.2, if r.2.isEmpty then "unreachable-event.nonmember" else "unreachable-event.member")
         else if kind = "lv" then let r := provLeave st ("h" ++ arg ++ ":1"); (r.1, r.2, if r.2.isEmpty then "leave.nonmember" else "leave.member")
         else (st, [], "bad")
